@@ -138,7 +138,8 @@ def sub_cases(rng, c, r):
         dd = cc.derive(rng, src, sub_tree, whole=True, max_steps=2)
         # a _x_ the sub-pattern introduces must not be one the parent already uses for something else
         if dd is not None and not (set(dd.vars) & set(cc.pattern_names(r.ptree))):
-            pats.append((dd.pattern, dict(dd.vars)))
+            # (its __eN__ names are renamed: a name shared with the parent would inherit the parent's binding)
+            pats.append((dd.pattern.replace("__e", "__s"), dict(dd.vars)))
     except SyntaxError:
         pass
     for k in sorted(d.vars)[:1]:
